@@ -387,11 +387,26 @@ def _free_names(e):
     return out
 
 
+def private_params(f):
+    """positional parameters of private (underscore-named) functions: part of no public interface, so a
+    rename is a presentation change like that of a local"""
+    if not (f.name.startswith("_") and not f.name.startswith("__")):
+        return set()
+    return {a.arg for a in f.args.posonlyargs + f.args.args if a.arg not in ("self", "cls")}
+
+
+def role_names(f):
+    return local_names(f) | private_params(f)
+
+
 def signatures(f, rounds=2):
-    locs = local_names(f)
+    locs = role_names(f)
     if not locs:
         return {}
     heads = _stmt_headers(f)
+    pp = private_params(f)
+    if pp:  # the parameter list itself is a feature (position of each parameter)
+        heads = [ast.Tuple([ast.Name(a.arg, ast.Load()) for a in f.args.posonlyargs + f.args.args], ast.Load())] + heads
     involve = {v: [] for v in locs}
     for h in heads:
         for v in _free_names(h) & locs:
@@ -412,7 +427,7 @@ def recover_names(f, modname, qual, stats=None):
     ref = _ref().get(modname, {}).get(qual)
     if not ref or uses_frame(f):
         return {}
-    locs = local_names(f)
+    locs = role_names(f)
     new_cur = locs - set(ref)
     missing = set(ref) - locs
     if not new_cur or not missing:
@@ -457,6 +472,10 @@ def recover_names(f, modname, qual, stats=None):
             del ren[k]
 
     def apply(scope, active):
+        if scope is f:
+            for a in f.args.posonlyargs + f.args.args:
+                if a.arg in active:
+                    a.arg = active[a.arg]
         for n in own(scope):
             if isinstance(n, ast.Name) and n.id in active:
                 n.id = active[n.id]
@@ -506,7 +525,7 @@ def _shape(e, locs):
 
 def shapes(f):
     """abstracted texts of the ordering comparisons and of the if-tests of a function"""
-    locs = local_names(f)
+    locs = role_names(f)
     cmp_, ifs = [], []
     for n in own(f):
         if isinstance(n, ast.Compare) and len(n.ops) == 1 and type(n.ops[0]) in FLIP:
@@ -523,7 +542,7 @@ def restore_shapes(f, modname, qual):
     ref = _ref().get("__shapes__", {}).get(modname, {}).get(qual)
     if not ref:
         return 0
-    locs = local_names(f)
+    locs = role_names(f)
     rc, ri = set(ref["cmp"]), set(ref["if"])
     done = 0
     for n in own(f):
